@@ -697,23 +697,27 @@ class ExpressionValue(Value):
         return self.left.int if self.left.is_address() else self.right.int
 
     def calculate_address_offset(self, statements):
-        address_index = self.left.int if self.left.is_address() else self.right.int
-        other_value = self.right if self.left.is_address() else self.left
-        if other_value.is_address():
-            additional_value = statements[other_value.int].code_pkg.address.int
-        elif other_value.is_numeric():
-            additional_value = other_value.signed()
-        else:
+        def value_of(operand):
+            if operand.is_address():
+                return statements[operand.int].code_pkg.address.int
+            if operand.is_numeric():
+                return operand.signed()
             raise ValueTypeError("[{}] unresolved expression".format(self.original_value))
-        address = statements[address_index].code_pkg.address.int
+
+        left = value_of(self.left)
+        right = value_of(self.right)
         if self.operation == "+":
-            return NumericValue(address + additional_value, size_hint=4, mode=ExplicitAddressingMode.EXTENDED)
+            result = left + right
         elif self.operation == "-":
-            return NumericValue((address - additional_value) & 0xFFFF, size_hint=4, mode=ExplicitAddressingMode.EXTENDED)
+            result = left - right
         elif self.operation == "*":
-            return NumericValue(address * additional_value, size_hint=4, mode=ExplicitAddressingMode.EXTENDED)
+            result = left * right
         else:
-            return NumericValue(int(address / additional_value), size_hint=4, mode=ExplicitAddressingMode.EXTENDED)
+            result = int(left / right)
+        if result < 0:
+            # a result below zero is reduced modulo 65536
+            result &= 0xFFFF
+        return NumericValue(result, size_hint=4, mode=ExplicitAddressingMode.EXTENDED)
 
     def is_8_bit(self):
         return False
